@@ -63,9 +63,11 @@ def r8_1(ctx):
     ctx.end()
 
 
-def feeding_reads(func, expr_nodes):
+def feeding_reads(func, expr_nodes, row_attr=None):
     """Attribute reads on `self` that can flow into the given expressions inside `func` (flow-insensitive def-use
-    through local names, including the tests of `if` statements that guard assignments to those names)."""
+    through local names, including the tests of `if` statements that guard assignments to those names).  A loop variable
+    over a literal table is defined by the table's elements; with `row_attr`, only by the rows that mention `self.<row_attr>`
+    (the row of the log being written)."""
     names_done, reads, todo = set(), set(), list(expr_nodes)
     pm = parent_map(func.node)
     while todo:
@@ -75,6 +77,22 @@ def feeding_reads(func, expr_nodes):
                 reads.add(n.attr)
             if isinstance(n, ast.Name) and n.id not in names_done and n.id != "self":
                 names_done.add(n.id)
+                for lp in ast.walk(func.node):
+                    if isinstance(lp, (ast.For, ast.comprehension)) and isinstance(lp.iter, (ast.Tuple, ast.List)) \
+                            and any(isinstance(x, ast.Name) and x.id == n.id for x in ast.walk(lp.target)):
+                        rows = list(lp.iter.elts)
+                        if row_attr is not None:
+                            sel = [r for r in rows if any(isinstance(x, ast.Attribute) and x.attr == row_attr for x in ast.walk(r))]
+                            rows = sel or rows
+                        for r in rows:
+                            if isinstance(lp.target, ast.Name):
+                                todo.append(r)
+                            elif isinstance(lp.target, (ast.Tuple, ast.List)) and isinstance(r, (ast.Tuple, ast.List)) and len(r.elts) == len(lp.target.elts):
+                                for tg, el in zip(lp.target.elts, r.elts):
+                                    if isinstance(tg, ast.Name) and tg.id == n.id:
+                                        todo.append(el)
+                            else:
+                                todo.append(r)
                 for a in ast.walk(func.node):
                     if isinstance(a, ast.Assign) and any(isinstance(t, ast.Name) and t.id == n.id for t in a.targets):
                         todo.append(a.value)
@@ -96,15 +114,15 @@ def r8_2(ctx):
             if ev.op != "append":
                 continue
             key = next(((c, a) for (c, a) in spec.LOGS if a == ev.attr and ev.cls and is_subclass(ctx, ev.cls, c)), None)
-            if key is None or spec.LOGS[key] is None or id(ev.node) in seen:
+            if key is None or spec.LOGS[key] is None or (id(ev.node), key) in seen:
                 continue
-            seen.add(id(ev.node))
+            seen.add((id(ev.node), key))
             live = spec.LOGS[key]
             func = ev.func
             argn = ev.argnodes[0] if ev.argnodes else None
             ctx.require(argn is not None, f"append without argument at {ev.loc}")
             con = construct(func, f"snapshot:{key[1]}")
-            reads = feeding_reads(func, [argn])
+            reads = feeding_reads(func, [argn], row_attr=ev.attr)
             own = {r for r in reads if ctx.types.field_type(ev.cls, r) is not None}
             ctx.instance(con, sample={"log": f"{key[0]}.{key[1]}", "live": live, "reads": sorted(own), "value": ast.unparse(argn)[:80]})
             # only the paired attribute (and the display flag handled by conds on self.<live>) may feed the value
@@ -115,7 +133,7 @@ def r8_2(ctx):
             cond_reads = set()
             while g is not None and g is not func.node:
                 if isinstance(g, ast.If):
-                    cond_reads |= feeding_reads(func, [g.test])
+                    cond_reads |= feeding_reads(func, [g.test], row_attr=ev.attr)
                 g = pm.get(id(g))
             extra |= {r for r in cond_reads if ctx.types.field_type(ev.cls, r) is not None} - {live}
             if extra:
